@@ -7,6 +7,7 @@ import Noodles.Bgzf.DriverC02
 import Noodles.Bgzf.DriverC03
 import Noodles.Cram.DriverC19
 import Noodles.Bcf.DriverC10
+import Noodles.Gff.DriverC18
 namespace Noodles
 open Noodles.Wire
 
@@ -20,6 +21,7 @@ def dispatch (line : String) : String :=
   | "c11" :: rest => Fasta.handleC11 rest
   | "c19" :: rest => Cram.Index.handleC19 rest
   | "c10" :: rest => Bcf.handleC10 rest
+  | "c18" :: rest => Gff.Driver.handleC18 rest
   | _ => "bad-suite"
 
 end Noodles
